@@ -1,6 +1,6 @@
 package patch
 
-import "unsafe"
+import "math"
 
 // nopOpcode 空指令插入到原函数开头第一个字节, 用于判断原函数是否已经被 Patch 过
 const nopOpcode byte = 0x90
@@ -57,19 +57,9 @@ func jmpToOriginFunctionValue(from, to uintptr) (value []byte) {
 
 // relative 判断两个指针间隔是否可以用相对地址表示
 func relative(from uintptr, to uintptr) bool {
-	delta := int64(from - to)
-	if unsafe.Sizeof(uintptr(0)) == unsafe.Sizeof(int32(0)) {
-		delta = int64(int32(from - to))
-	}
-
-	// 跨度大于2G 时
-	relative := delta <= 0x7fffffff
-
-	if delta < 0 {
-		delta = -delta
-		relative = delta <= 0x80000000
-	}
-	return relative
+	// jmp rel32 的偏移量是相对于该指令(5字节)末尾计算的, 必须能用 int32 表示
+	dis := int64(to-from) - 5
+	return dis >= math.MinInt32 && dis <= math.MaxInt32
 }
 
 // checkAlreadyPatch 检测是否已经 patch
